@@ -174,6 +174,7 @@ func cmdRun(args []string) {
 	validate := fs.Int("validate", 0, "paths to validate natively")
 	stepcap := fs.Int("stepcap", 0, "per-path step cap")
 	noraces := fs.Bool("noraces", false, "do not report data races")
+	cross := fs.String("cross", "", "comma-separated second solvers for the cross-check (e.g. z3-new,cvc5)")
 	bg := fs.String("bg", "", "comma-separated background loops to start as threads (backgroundFlush,compactionWorker,...)")
 	conccap := fs.Int("conccap", 0, "cap on the number of values a symbolic length/index may be forked into")
 	tracePath := fs.String("trace", "", "replay file: re-execute that one path with a trace of scheduling points")
@@ -203,6 +204,9 @@ func cmdRun(args []string) {
 	}
 	o := &Opts{Workers: *workers, Preempt: *pbound, MaxZeros: *maxZeros, Thorough: *thorough, MaxPaths: *maxPaths, BudgetS: *budget, Verbose: true, Samples: 3, Validate: *validate, StepCap: *stepcap, ConcCap: *conccap}
 	o.NoRaces = *noraces
+	if *cross != "" {
+		o.Cross, o.CrossMaxQ, o.CrossS = strings.Split(*cross, ","), 300, 120
+	}
 	if *bg != "" {
 		o.Background = map[string]bool{}
 		for _, b := range strings.Split(*bg, ",") {
@@ -212,6 +216,9 @@ func cmdRun(args []string) {
 	res := explore(l.M, fn, o)
 	fmt.Printf("paths=%d aborted=%v steps=%d asserts=%d queries=%d (sat %d unsat %d unknown %d) solver(cpu)=%.1fs wall=%.1fs (%.0f steps/s) exhausted=%v remaining=%d\n",
 		res.Paths, res.Aborted, res.Steps, res.Asserts, res.Queries, res.QSat, res.QUnsat, res.QUnknown, res.SolverS, res.WallS, float64(res.Steps)/res.WallS, res.Exhausted, res.Remaining)
+	for _, c := range res.Cross {
+		fmt.Printf("cross-solver %s: %d queries replayed, agree=%d disagree=%d undecided=%d errors=%d in %.1fs %s\n", c.Solver, c.Queries, c.Agree, c.Disagree, c.Undecided, c.Errors, c.Seconds, c.Note)
+	}
 	fmt.Printf("violations=%d reached=%v schedules=%d\n", len(res.Viol), res.Reached, res.Schedules)
 	for _, e := range res.EngineErrors {
 		fmt.Println("ENGINE ERROR:", e)
